@@ -242,6 +242,16 @@ class FloatBackend(BackendBase):
     def const(self, v):
         return v
 
+    def sym_float(self, name, lo, hi):
+        v = float(self._draw((), lo=lo, hi=hi))
+        self.inputs[name] = v
+        return v
+
+    def sym_int(self, name, lo, hi):
+        v = int(self.rng.integers(lo, hi + 1))
+        self.inputs[name] = v
+        return v
+
     def _cmp(self, name, kind, a, b, ignore_order=False, scale=None):
         ob = Obligation(name, kind)
         pairs = self._align(name, a, b, ignore_order)
@@ -352,6 +362,27 @@ class SymBackend(BackendBase):
     def const(self, v):
         return v
 
+    def sym_float(self, name, lo, hi):
+        """a float parameter (passes isinstance(x, float)) that is symbolic in [lo, hi]"""
+        from .scalars import SymFloat
+
+        v = float(self._draw((), lo=lo, hi=hi))
+        self.inputs[name] = v
+        x = fresh(name, "input", v)
+        self.ctx.assume("ge", (x - lo).p, f"{name} >= {lo}")
+        self.ctx.assume("ge", (hi - x).p, f"{name} <= {hi}")
+        return SymFloat(v, x)
+
+    def sym_int(self, name, lo, hi):
+        from .scalars import SymInt
+
+        v = int(self.rng.integers(lo, hi + 1))
+        self.inputs[name] = v
+        x = fresh(name, "input", float(v))
+        self.ctx.assume("ge", (x - lo).p, f"{name} >= {lo}")
+        self.ctx.assume("ge", (hi - x).p, f"{name} <= {hi}")
+        return SymInt(v, x)
+
     def _cmp(self, name, kind, a, b, ignore_order=False, rounds=None, maxdeg=None, products=False):
         ob = Obligation(name, kind)
         pairs = self._align(name, a, b, ignore_order)
@@ -390,7 +421,7 @@ class SymBackend(BackendBase):
             ob.status = "failed-concrete"
             ob.detail = concrete_fail
         self.obligations.append(ob)
-        self.pending_goals.append((ob, goals, {"rounds": rounds, "maxdeg": maxdeg, "products": products or kind != "eq"}))
+        self.pending_goals.append((ob, goals, {"rounds": rounds, "maxdeg": maxdeg, "products": products}))
 
     def eq(self, name, a, b, ignore_order=False, **kw):
         self._cmp(name, "eq", a, b, ignore_order, **kw)
